@@ -27,7 +27,7 @@ namespace {
 // Extremes observed over 5.9e5 concealed frames / 4.8e3 resumptions / 1e3 FEC streams (4 seeds + 1/40 of the enumerated space) and the bound chosen
 // (>= 2x the extreme; the distributions are heavy-tailed, so the bounds detect runaway behaviour, not small level errors):
 const double K_PEAK_PLC = 8.0;      // concealed-frame peak / max(recent 100 ms peak, pre-loss peak): observed <= 3.30
-const double K_PEAK_FEC = 16.0;     // same for frames recovered with decode_fec=1 (reference also includes the loss-free twin's frame): observed <= 6.77
+const double K_PEAK_FEC = 16.0;     // (no longer asserted, see below)     // same for frames recovered with decode_fec=1 (reference also includes the loss-free twin's frame): observed <= 6.77
 const double K_RESUME = 20.0;       // first 100 ms after reception resumes vs max(loss-free twin, pre-loss): observed <= 8.98 (two MDCT outliers after > 7 s of loss; p99 1.24)
 const double EPS_PEAK = 2e-3;
 const double DECAY_FRACTION = 0.5;  // RMS after >= 1 s of loss / pre-loss RMS, MDCT-only streams with speech-like (non-stationary) input: observed <= 0.24.
@@ -322,7 +322,9 @@ int vp_case(Choice& c, Report& rep) {
       if (use_fec) ref = std::max(ref, am_peak(oc, fs * g.ch, 1));
       double pkc = am_peak(ol, fs * g.ch, 1);
       if (ref > 1e-4) { char cb[200]; snprintf(cb, sizeof cb, "%s/Fs%d/ch%d/br%d/run%d/fam%d/sig%d/ref%.4f/fec%d", cls, g.Fs, g.ch, g.bitrate, run, family, g.family, ref, use_fec); calib_log("peak_ratio", pkc / ref, cb); }
-      VP_REQUIRE(pkc <= (use_fec ? K_PEAK_FEC : K_PEAK_PLC) * ref + EPS_PEAK, "c09:concealment-too-loud", "concealed packet %d (run %d, %s): peak %.4f, recent/pre-loss peak %.4f", i, run, use_fec ? "FEC" : "PLC", pkc, ref);
+      // frames recovered with decode_fec=1 carry no absolute level clause: the frozen codec's stereo LBRR frames already peak at 20x the reference
+      // (thorough tier, two-talker stereo, 40 ms; calibration had shown 6.8x); they are bounded relative to the frozen decoder above (3x) instead
+      if (!use_fec) VP_REQUIRE(pkc <= K_PEAK_PLC * ref + EPS_PEAK, "c09:concealment-too-loud", "concealed packet %d (run %d, %s): peak %.4f, recent/pre-loss peak %.4f", i, run, use_fec ? "FEC" : "PLC", pkc, ref);
     }
     // ---- one-sided clauses relative to the frozen decoder fed the identical calls (per-case calibration; generous factors)
     {
@@ -391,7 +393,7 @@ int vp_case(Choice& c, Report& rep) {
     VP_REQUIRE(gain >= FEC_GAIN_DB, "c09:fec-not-better", "over %d single losses with LBRR available, FEC error energy is only %.2f dB below concealment", fec_frames, gain);
     rep.label("fec-aggregate-checked");
   }
-  (void)sched_end; (void)burst_packets; (void)e_fec_ref;
+  (void)sched_end; (void)burst_packets; (void)e_fec_ref; (void)K_PEAK_FEC;
   if (longest_run * (long)fs >= g.Fs) rep.label("burst>=1s");
   if (longest_run * (long)fs >= 5L * g.Fs) rep.label("burst>=5s");
   rep.labelf("family:%d", family);
